@@ -779,10 +779,18 @@ def _same_name_enums_scenario(ro, sym, roots, nroot):
     pyname = ro.choice(['Mode', 'Kind'])
     variants = [[['A', 1], ['B', 2]], [['X', 'x'], ['Y', 'y']], [['A', 2], ['B', 1]], [['A', 1], ['X', 'x']]]
     m0, m1 = ro.sample(variants, 2)
+    twins = ro.random() < 0.4
+    if twins:
+        # two enums with EQUAL member values in the same order whose members compare as their values (IntEnum / str
+        # mixin) and different Python names: a result must be a member of the enum that was asked for
+        m0 = m1 = ro.choice(variants[:2])
     out = []
     names = []
     for (en, members) in (('E90', m0), ('E91', m1)):
         spec = {'name': en, 'members': members, 'pyname': pyname}
+        if twins:
+            spec['pyname'] = {'E90': 'Priority', 'E91': 'Severity'}[en]
+            spec['kind'] = 'int' if isinstance(members[0][1], int) else 'str'
         sym.enums[en] = True
         sym.enum_specs[en] = spec
         out.append({'op': 'defenum', 'spec': spec})
